@@ -126,6 +126,32 @@ def fam_gosub(tier, rng):
         body = [tok(b, "a")] + [x for i in range(pre) for x in (b.gosub("R"), tok(b, "bk"))] + [tok(b, "x"), b.label("ALT"), tok(b, "alt"), b.end(),
                 b.label("R"), tok(b, "r"), b.ret("ALT")]
         out.append({"fam": "return-label", "prog": prog(body)})
+    # RETURN label consumes its GOSUB like a plain RETURN: a later RETURN continues after the GOSUB before it,
+    # and with none left it is error 3
+    for depth in range(1, 4):
+        for where in ("main",):          # RETURN label is a module-level form (the checker rejects it in a subprogram)
+            for stray in (False, True):
+                b = B()
+                body = [tok(b, "a")]
+                routines = []
+                # routine Ri: GOSUB R(i+1) ... ; the innermost returns to a label inside its caller
+                body += [b.gosub("R1"), tok(b, "back0")]
+                if depth == 1:
+                    body += [b.label("LAND"), tok(b, "land")]
+                if stray:
+                    body += [b.ret(), tok(b, "never")]
+                for i in range(1, depth + 1):
+                    r = [b.label("R%d" % i), tok(b, "r%d" % i)]
+                    if i < depth:
+                        r += [b.gosub("R%d" % (i + 1)), tok(b, "skipped%d" % i), b.label("AFTER%d" % i), tok(b, "after%d" % i), b.ret()]
+                    else:
+                        r += [b.ret("AFTER%d" % (i - 1))] if depth > 1 else [b.ret("LAND")]
+                    routines += r
+                if where == "main":
+                    p = prog(body + [b.end()] + routines)
+                else:
+                    p = prog([tok(b, "m0"), b.call("P", []), tok(b, "m1")], [sub("P", [], body + [b.exit("sub")] + routines)])
+                out.append({"fam": "return-label-nested:%d/%s/%s" % (depth, where, stray), "prog": p})
     return out
 
 
